@@ -34,7 +34,13 @@
 #include "torrent/exceptions.h"
 #include "torrent/peer/connection_list.h"
 #include "torrent/peer/peer_info.h"
-#include "torrent/utils/thread.h"
+#include "torrent/peer/peer.h"
+#include "torrent/system/poll.h"
+#include "torrent/torrent.h"
+#include "torrent/data/file_list.h"
+#include <filesystem>
+#include <openssl/sha.h>
+#include <unistd.h>
 
 using namespace ltv;
 namespace fs = std::filesystem;
